@@ -306,6 +306,8 @@ Proof. induction s; cbn; [reflexivity | now rewrite IHs]. Qed.
 Lemma slen_app : forall a b, slen (a ++ b) = (slen a + slen b)%nat.
 Proof. intros. unfold slen. apply length_append. Qed.
 
+Ltac slia := repeat (rewrite slen_cons in * || rewrite slen_app in *); lia.
+
 Lemma take_drop : forall n s, take n s ++ drop n s = s.
 Proof.
   induction n as [|n IH]; intros s; [reflexivity|]. destruct s as [|c r]; [reflexivity|].
@@ -337,6 +339,9 @@ Ltac b2p :=
   | H : (_ <=? _)%N = true |- _ => apply N.leb_le in H
   | H : (_ <? _)%N = true |- _ => apply N.ltb_lt in H
   end.
+
+Lemma is_eq : forall n c, is n c = true -> c = ascii_of_N n.
+Proof. intros n c H. unfold is in H. apply N.eqb_eq in H. now apply code_eq. Qed.
 
 Ltac split_ifs :=
   repeat match goal with
@@ -444,7 +449,7 @@ Qed.
 Lemma all_hex_word : forall n w rest, wordp w -> brk_rest rest ->
   all_hex n (w ++ rest) = None \/ exists w', all_hex n (w ++ rest) = Some (w' ++ rest) /\ wordp w'.
 Proof.
-  induction n as [|n IH]; intros w rest Hw Hr; [right; eauto|].
+  induction n as [|n IH]; intros w rest Hw Hr; [right; exists w; split; [reflexivity | assumption]|].
   inversion Hw as [| c r Hc Hw' | c r Ha Hu Hw']; subst; cbn [append all_hex].
   - left. destruct rest as [|c r]; [reflexivity|]. cbn in Hr.
     destruct (brk_facts c Hr) as [_ [_ [_ [_ [H5 _]]]]]. now rewrite H5.
@@ -454,7 +459,7 @@ Qed.
 
 Lemma dash_word : forall w rest, wordp w -> brk_rest rest -> dash (w ++ rest) = None.
 Proof.
-  intros w rest Hw Hr. inversion Hw as [| c r Hc Hw' | c r Ha Hu Hw']; subst; cbn [append dash].
+  intros w rest Hw Hr. inversion Hw as [| c r Hc Hw' | c r Ha Hu Hw']; subst; cbn [append]; unfold dash.
   - destruct rest as [|c r]; [reflexivity|]. cbn in Hr.
     destruct (brk_facts c Hr) as [_ [_ [H3 _]]]. now rewrite H3.
   - now rewrite (cont_not_dash c Hc).
@@ -526,3 +531,318 @@ Proof.
       cbn [take_word]. rewrite Ha, IH; [reflexivity | assumption | rewrite slen_cons in Hf; lia]. }
   rewrite G; [reflexivity | cbn [all_cont]; now rewrite T7, Hr | lia].
 Qed.
+
+Lemma ident_ok_spec : forall w, ident_ok w = true -> tokenize w = [TWord w true].
+Proof.
+  intros w H. rewrite <- (append_nil_r w) at 1. rewrite tk_word by (assumption || exact I). reflexivity.
+Qed.
+
+(* ---------------------------------------------------------------- integers *)
+
+(* lit_int as the formatter prints it back: an optional minus sign and decimal digits *)
+Definition int_ok (s : string) : bool :=
+  match s with
+  | EmptyString => false
+  | String c r => if is 45 c then lex_uint r else lex_uint s
+  end.
+
+Lemma digits_wordp : forall d, all_digits d = true -> wordp d.
+Proof.
+  induction d as [|c r IH]; intros H; [constructor|]. cbn [all_digits] in H.
+  apply andb_true_iff in H. destruct H as [Hc Hr]. apply wp_ascii; [now apply digit_cont | now apply IH].
+Qed.
+
+Lemma take_digits_brk : forall d rest, all_digits d = true -> brk_rest rest ->
+  take_digits (d ++ rest) = (d, rest).
+Proof.
+  induction d as [|c d IH]; intros rest Hd Hr.
+  - destruct rest as [|c r]; [reflexivity|]. cbn in Hr.
+    destruct (brk_facts c Hr) as [_ [_ [_ [_ [_ H6]]]]]. cbn [append take_digits]. now rewrite H6.
+  - cbn [all_digits] in Hd. apply andb_true_iff in Hd. destruct Hd as [Hc Hd].
+    cbn [append take_digits]. now rewrite Hc, IH.
+Qed.
+
+Lemma word_char_next_brk : forall rest, brk_rest rest -> word_char_next rest = false.
+Proof.
+  intros [|c r] H; [reflexivity|]. cbn in H. destruct (brk_facts c H) as [H1 [H2 _]].
+  cbn [word_char_next]. now rewrite H2, H1.
+Qed.
+
+Lemma lex_number_ok : forall neg d rest, all_digits d = true -> brk_rest rest ->
+  lex_number neg (d ++ rest) = (TInt ((if neg then "-" else "") ++ d), rest).
+Proof.
+  intros neg d rest Hd Hr. unfold lex_number.
+  now rewrite take_digits_brk, word_char_next_brk by assumption.
+Qed.
+
+Lemma tk_uint : forall d rest, lex_uint d = true -> brk_rest rest ->
+  tokenize (d ++ rest) = TInt d :: tokenize rest.
+Proof.
+  intros [|c r] rest Hd Hr; [discriminate|]. cbn [lex_uint] in Hd.
+  assert (Hc : is_digit c = true) by (cbn in Hd; now apply andb_true_iff in Hd).
+  destruct (digit_tests c Hc) as [T1 [T2 [T3 T4]]].
+  unfold tokenize at 1. change (String c r ++ rest) with (String c (r ++ rest)).
+  cbn [lex]. rewrite T1, T2. cbn [negb]. rewrite T3, T4.
+  change (String c (r ++ rest)) with (String c r ++ rest).
+  rewrite (uuid_none_wordp _ _ (digits_wordp _ Hd) Hr). cbn [is_some_string]. rewrite andb_false_r, Hc.
+  rewrite lex_number_ok by assumption. cbn [append]. f_equal.
+  apply tokenize_fuel. slia.
+Qed.
+
+Lemma tk_int : forall d rest, int_ok d = true -> brk_rest rest ->
+  tokenize (d ++ rest) = TInt d :: tokenize rest.
+Proof.
+  intros [|c r] rest Hd Hr; [discriminate|]. cbn [int_ok] in Hd.
+  destruct (is 45 c) eqn:Hm; [|now apply tk_uint].
+  apply is_eq in Hm. change (ascii_of_N 45) with "-"%char in Hm. subst c.
+  destruct r as [|c2 r2]; [discriminate|].
+  assert (Hc : is_digit c2 = true) by (cbn in Hd; now apply andb_true_iff in Hd).
+  unfold tokenize. change (String "-" (String c2 r2) ++ rest) with (String "-" (String c2 r2 ++ rest)).
+  change (lex (S (slen (String "-" (String c2 r2 ++ rest)))) (String "-" (String c2 r2 ++ rest)))
+    with (match String c2 r2 ++ rest with
+          | String c2' r2' =>
+              if is_digit c2' then let '(tk, t) := lex_number true (String c2 r2 ++ rest) in
+                                   tk :: lex (slen (String "-" (String c2 r2 ++ rest))) t
+              else if is 62 c2' then TP PArrow :: lex (slen (String "-" (String c2 r2 ++ rest))) r2'
+              else TBad :: lex (slen (String "-" (String c2 r2 ++ rest))) (String c2 r2 ++ rest)
+          | EmptyString => [TBad]
+          end).
+  change (String c2 r2 ++ rest) with (String c2 (r2 ++ rest)) at 1. cbv iota. rewrite Hc.
+  rewrite lex_number_ok by assumption. f_equal.
+  apply tokenize_fuel. slia.
+Qed.
+
+Lemma lex_uint_int_ok : forall d, lex_uint d = true -> int_ok d = true.
+Proof.
+  intros [|c r] H; [discriminate|]. cbn [int_ok].
+  assert (Hc : is_digit c = true) by (cbn in H; now apply andb_true_iff in H).
+  replace (is 45 c) with false; [assumption|].
+  symmetry. apply cont_not_dash. now apply digit_cont.
+Qed.
+
+(* ---------------------------------------------------------------- string literals *)
+
+Lemma lex_string_app : forall f s b t rest, lex_string f s = Some (b, t) ->
+  lex_string f (s ++ rest) = Some (b, t ++ rest).
+Proof.
+  induction f as [|f IH]; intros s b t rest H; cbn [lex_string] in H; [discriminate|].
+  destruct s as [|c r]; [discriminate|]. cbn [append lex_string].
+  destruct (is 34 c); [inversion H; subst; reflexivity|].
+  assert (Hrec : forall (g : string * string -> string * string),
+            (forall b1 t1, g (b1, t1 ++ rest) = (fst (g (b1, t1)), snd (g (b1, t1)) ++ rest)) ->
+            option_map g (lex_string f r) = Some (b, t) ->
+            option_map g (lex_string f (r ++ rest)) = Some (b, t ++ rest)).
+  { intros g Hg Hm. apply option_map_some in Hm. destruct Hm as [[b1 t1] [E Eq]].
+    rewrite (IH _ _ _ rest E). cbn [option_map]. rewrite Hg, <- Eq. reflexivity. }
+  destruct (is 92 c).
+  - destruct r as [|c2 r2]; [discriminate|]. cbn [append].
+    destruct (is 92 c2 || is 34 c2).
+    + apply option_map_some in H. destruct H as [[b1 t1] [E Eq]]. inversion Eq; subst.
+      now rewrite (IH _ _ _ rest E).
+    + change (String c2 (r2 ++ rest)) with (String c2 r2 ++ rest). apply Hrec; [reflexivity | assumption].
+  - destruct (is 10 c); [discriminate|].
+    destruct (is 13 c).
+    + destruct r as [|c2 r2]; [discriminate|]. cbn [append]. destruct (is 10 c2); [discriminate|].
+      change (String c2 (r2 ++ rest)) with (String c2 r2 ++ rest). apply Hrec; [reflexivity | assumption].
+    + apply Hrec; [reflexivity | assumption].
+Qed.
+
+Lemma lex_string_mono : forall f s b t, lex_string f s = Some (b, t) -> lex_string (S f) s = Some (b, t).
+Proof.
+  induction f as [|f IH]; intros s b t H; [discriminate|].
+  remember (S f) as f1. cbn [lex_string]. subst f1. cbn [lex_string] in H.
+  destruct s as [|c r]; [discriminate|].
+  destruct (is 34 c); [assumption|].
+  assert (Hrec : forall (g : string * string -> string * string) r',
+            option_map g (lex_string f r') = Some (b, t) ->
+            option_map g (lex_string (S f) r') = Some (b, t)).
+  { intros g r' Hm. apply option_map_some in Hm. destruct Hm as [[b1 t1] [E Eq]].
+    rewrite (IH _ _ _ E). cbn [option_map]. now rewrite Eq. }
+  destruct (is 92 c).
+  - destruct r as [|c2 r2]; [discriminate|]. destruct (is 92 c2 || is 34 c2); now apply Hrec.
+  - destruct (is 10 c); [discriminate|]. destruct (is 13 c).
+    + destruct r as [|c2 r2]; [discriminate|]. destruct (is 10 c2); [discriminate|]. now apply Hrec.
+    + now apply Hrec.
+Qed.
+
+Lemma lex_string_fuel : forall f g s b t, (f <= g)%nat -> lex_string f s = Some (b, t) ->
+  lex_string g s = Some (b, t).
+Proof. intros f g s b t Hle. induction Hle; intros E; [assumption|]. apply lex_string_mono. now apply IHHle. Qed.
+
+(* lit_string with its quotes: a quote, then a body that [lex_string] closes at its end *)
+Definition str_ok (v : string) : bool :=
+  match v with
+  | EmptyString => false
+  | String c b =>
+      is 34 c && match lex_string (S (slen b)) b with
+                 | Some (b', t) => String.eqb b' b && String.eqb t ""
+                 | None => false
+                 end
+  end.
+
+Lemma tk_str : forall v rest, str_ok v = true -> tokenize (v ++ rest) = TStr v :: tokenize rest.
+Proof.
+  intros [|c b] rest H; [discriminate|]. cbn [str_ok] in H. apply andb_true_iff in H. destruct H as [Hq H].
+  destruct (lex_string (S (slen b)) b) as [[b' t]|] eqn:E; [|discriminate].
+  apply andb_true_iff in H. destruct H as [Hb Ht].
+  apply String.eqb_eq in Hb, Ht. subst b' t.
+  apply is_eq in Hq. change (ascii_of_N 34) with """"%char in Hq. subst c.
+  assert (E2 : lex_string (S (slen (b ++ rest))) (b ++ rest) = Some (b, rest)).
+  { apply (lex_string_app _ _ _ _ rest) in E. cbn [append] in E.
+    eapply lex_string_fuel; [|exact E]. rewrite slen_app. lia. }
+  unfold tokenize. change (String """" b ++ rest) with (String """" (b ++ rest)).
+  change (lex (S (slen (String """" (b ++ rest)))) (String """" (b ++ rest)))
+    with (match lex_string (S (slen (b ++ rest))) (b ++ rest) with
+          | Some (b0, t) => TStr (String """" b0) :: lex (slen (String """" (b ++ rest))) t
+          | None => TBad :: lex (slen (String """" (b ++ rest))) (b ++ rest)
+          end).
+  rewrite E2. f_equal. apply tokenize_fuel. slia.
+Qed.
+
+(* ---------------------------------------------------------------- uuids *)
+
+Lemma all_hex_app : forall n s t rest, all_hex n s = Some t -> all_hex n (s ++ rest) = Some (t ++ rest).
+Proof.
+  induction n as [|n IH]; intros s t rest H; cbn [all_hex] in *; [inversion H; reflexivity|].
+  destruct s as [|c r]; [discriminate|]. cbn [append]. destruct (is_hex c); [now apply IH | discriminate].
+Qed.
+
+Lemma all_hex_len : forall n s t, all_hex n s = Some t -> slen s = (n + slen t)%nat.
+Proof.
+  induction n as [|n IH]; intros s t H; cbn [all_hex] in *; [inversion H; reflexivity|].
+  destruct s as [|c r]; [discriminate|]. destruct (is_hex c); [|discriminate].
+  rewrite slen_cons, (IH _ _ H). lia.
+Qed.
+
+Lemma dash_app : forall s t rest, dash s = Some t -> dash (s ++ rest) = Some (t ++ rest).
+Proof.
+  intros [|c r] t rest H; [discriminate|]. cbn [append dash] in *. destruct (is 45 c); [|discriminate].
+  inversion H; reflexivity.
+Qed.
+
+Lemma dash_len : forall s t, dash s = Some t -> slen s = S (slen t).
+Proof. intros [|c r] t H; [discriminate|]. cbn [dash] in H. destruct (is 45 c); [|discriminate]. now inversion H. Qed.
+
+Lemma obind_some : forall {A B} (o : option A) (g : A -> option B) y, obind o g = Some y ->
+  exists x, o = Some x /\ g x = Some y.
+Proof. intros A B [x|] g y H; [eauto | discriminate]. Qed.
+
+Lemma match_uuid_app : forall s t rest, match_uuid s = Some t -> match_uuid (s ++ rest) = Some (t ++ rest).
+Proof.
+  intros s t rest H. unfold match_uuid in *.
+  repeat (let E := fresh "E" in apply obind_some in H; destruct H as [? [E H]];
+          first [rewrite (all_hex_app _ _ _ rest E) | rewrite (dash_app _ _ rest E)]; cbn [obind]).
+  now apply all_hex_app.
+Qed.
+
+Lemma match_uuid_len : forall s t, match_uuid s = Some t -> slen s = (36 + slen t)%nat.
+Proof.
+  intros s t H. unfold match_uuid in H.
+  repeat (let E := fresh "E" in apply obind_some in H; destruct H as [? [E H]];
+          first [apply all_hex_len in E | apply dash_len in E]).
+  apply all_hex_len in H. lia.
+Qed.
+
+(* lit_uuid: exactly the 8-4-4-4-12 form *)
+Definition uuid_ok (v : string) : bool :=
+  match match_uuid v with Some t => String.eqb t "" | None => false end.
+
+Lemma take_all : forall s rest, take (String.length s) (s ++ rest) = s.
+Proof. induction s as [|c r IH]; intros rest; cbn; [reflexivity | now rewrite IH]. Qed.
+
+Lemma drop_all : forall s rest, drop (String.length s) (s ++ rest) = rest.
+Proof. induction s as [|c r IH]; intros rest; cbn; [reflexivity | apply IH]. Qed.
+
+Lemma hex_tests : forall c, is_hex c = true ->
+  is_ascii_ws c = false /\ is_ascii c = true /\ is 47 c = false /\ is 34 c = false.
+Proof.
+  intros c H. unfold is_hex, is_digit in H. unfold is_ascii_ws, is_ascii, between, is in *.
+  set (x := code c) in *. b2p; repeat split; solve_cmp.
+Qed.
+
+Lemma tk_uuid : forall v rest, uuid_ok v = true -> tokenize (v ++ rest) = TUuid v :: tokenize rest.
+Proof.
+  intros v rest H. unfold uuid_ok in H. destruct (match_uuid v) as [t|] eqn:E; [|discriminate].
+  apply String.eqb_eq in H. subst t.
+  pose proof (match_uuid_len _ _ E) as Hl. pose proof (match_uuid_app _ _ rest E) as Ea.
+  cbn [append] in Ea. change (slen "") with 0%nat in Hl. rewrite Nat.add_0_r in Hl.
+  destruct v as [|c r]; [discriminate|].
+  assert (Hc : is_hex c = true).
+  { unfold match_uuid in E. cbn [all_hex] in E. destruct (is_hex c); [reflexivity | discriminate]. }
+  destruct (hex_tests c Hc) as [T1 [T2 [T3 T4]]].
+  unfold tokenize at 1. change (String c r ++ rest) with (String c (r ++ rest)) in *.
+  cbn [lex]. rewrite T1, T2. cbn [negb]. rewrite T3, T4, Hc, Ea. cbn [is_some_string andb].
+  change (String c (r ++ rest)) with (String c r ++ rest).
+  unfold slen in Hl. rewrite <- Hl, take_all, drop_all. f_equal.
+  apply tokenize_fuel. slia.
+Qed.
+
+(* ---------------------------------------------------------------- comment and doc lines *)
+
+Fixpoint no_lf (s : string) : bool :=
+  match s with EmptyString => true | String c r => negb (is 10 c) && no_lf r end.
+
+(* a comment / doc text as [value_inner] returns it: one line, nothing to trim at its end *)
+Definition text_ok (s : string) : bool := no_lf s && String.eqb (trim_end s) s.
+
+Lemma split_line_ok : forall s rest, no_lf s = true -> split_line (s ++ LF ++ rest) = (s, rest).
+Proof.
+  induction s as [|c r IH]; intros rest H; [reflexivity|].
+  cbn [no_lf] in H. apply andb_true_iff in H. destruct H as [Hc Hr]. apply negb_true_iff in Hc.
+  cbn [append split_line]. rewrite Hc. now rewrite IH.
+Qed.
+
+(* the text of a comment / doc line after its marker, as fn comment / fn doc_impl write it *)
+Definition line_body (s : string) : string := if String.eqb s "" then "" else " " ++ s.
+
+Lemma inner_body : forall s, text_ok s = true -> inner (line_body s) = s.
+Proof.
+  intros s H. unfold text_ok in H. apply andb_true_iff in H. destruct H as [_ H].
+  apply String.eqb_eq in H. unfold line_body. destruct (String.eqb_spec s "") as [->|_]; [reflexivity|].
+  exact H.
+Qed.
+
+Lemma no_lf_body : forall s, text_ok s = true -> no_lf (line_body s) = true.
+Proof.
+  intros s H. unfold text_ok in H. apply andb_true_iff in H. destruct H as [H _].
+  unfold line_body. destruct (String.eqb s ""); [reflexivity | exact H].
+Qed.
+
+Lemma body_first : forall s rest, text_ok s = true ->
+  exists c r, line_body s ++ LF ++ rest = String c r /\ is 47 c = false /\ is 33 c = false.
+Proof.
+  intros s rest _. unfold line_body. destruct (String.eqb s ""); cbn [append LF]; eauto.
+Qed.
+
+Lemma tk_comment_line : forall s rest, text_ok s = true ->
+  tokenize ("//" ++ line_body s ++ LF ++ rest) = TComment s :: tokenize rest.
+Proof.
+  intros s rest H. destruct (body_first s rest H) as [c [r [E [H1 H2]]]].
+  pose proof (split_line_ok _ rest (no_lf_body s H)) as Hs. rewrite E in Hs.
+  unfold tokenize. cbn [append]. rewrite E.
+  change (lex (S (slen (String "/" (String "/" (String c r))))) (String "/" (String "/" (String c r))))
+    with (if is 47 c then let '(l, t) := split_line r in TDoc (inner l) :: lex (slen (String "/" (String "/" (String c r)))) t
+          else if is 33 c then let '(l, t) := split_line r in TDocIn (inner l) :: lex (slen (String "/" (String "/" (String c r)))) t
+          else let '(l, t) := split_line (String c r) in TComment (inner l) :: lex (slen (String "/" (String "/" (String c r)))) t).
+  rewrite H1, H2, Hs, (inner_body s H). f_equal. apply tokenize_fuel.
+  rewrite <- E. slia.
+Qed.
+
+Lemma tk_marker_line : forall (m : ascii) (mk : string -> token) s rest,
+  (forall f r3, lex (S f) (String "/" (String "/" (String m r3))) =
+                let '(l, t) := split_line r3 in mk (inner l) :: lex f t) ->
+  text_ok s = true ->
+  tokenize (String "/" (String "/" (String m (line_body s ++ LF ++ rest)))) = mk s :: tokenize rest.
+Proof.
+  intros m mk s rest Hm H. unfold tokenize. rewrite Hm.
+  rewrite (split_line_ok _ rest (no_lf_body s H)), (inner_body s H). f_equal.
+  apply tokenize_fuel. rewrite !slen_cons, !slen_app. lia.
+Qed.
+
+Lemma tk_doc_line : forall s rest, text_ok s = true ->
+  tokenize ("///" ++ line_body s ++ LF ++ rest) = TDoc s :: tokenize rest.
+Proof. intros s rest H. apply (tk_marker_line "/" TDoc); [reflexivity | assumption]. Qed.
+
+Lemma tk_docin_line : forall s rest, text_ok s = true ->
+  tokenize ("//!" ++ line_body s ++ LF ++ rest) = TDocIn s :: tokenize rest.
+Proof. intros s rest H. apply (tk_marker_line "!" TDocIn); [reflexivity | assumption]. Qed.
